@@ -34,6 +34,9 @@ def main(v: Verdict) -> None:
     for hid, sc in enumerate(scs, 1):
         sc["id"] = hid
         h = sc["h"]
+        if sc.get("decoy"):
+            a_parts.append(f"class Reg{hid}:\n    class {cname(hid, 1, False)}:\n        def decoy_m(self, from_decoy: int) -> int:\n            ...\n\n"
+                           f"        def m1(self, from_c9: int) -> int:\n            ...\n")
         for k, c in enumerate(h, 1):
             src = class_src(hid, k, c, h)
             if sc["split"] and k == 1:
@@ -71,7 +74,7 @@ def main(v: Verdict) -> None:
                         for p in m.params or []:
                             mo = re.fullmatch(r"from_c(\d+)", p["pyname"])
                             if mo:
-                                origin = int(mo.group(1))
+                                origin = int(mo.group(1)) if int(mo.group(1)) <= len(h) else 0
                         meths.append({"name": m.pyname, "origin": origin})
                 supers, unimp = [], []
                 imported = {name for _, name, _ in f.imports}
@@ -83,7 +86,7 @@ def main(v: Verdict) -> None:
                     if idx and nm not in imported and nm not in declared:
                         unimp.append(idx)
                 o = {"missing": False, "k": k, "meths": meths, "supers": supers, "unimported": unimp}
-            obs.append({"id": f"H{hid}C{k}", "sc": {"h": h, "split": sc["split"]}, "obs": o})
+            obs.append({"id": f"H{hid}C{k}", "sc": {"h": h, "split": sc["split"], "decoy": sc.get("decoy", False)}, "obs": o})
     bad = judge(v, "C17_Trace", obs)
     by_id = {o["id"]: o for o in obs}
     for b in bad:
